@@ -796,6 +796,9 @@ def _parse_source_for_lambda(
     # enclosing function for the lambda - as funny things can be done with indents
     # and function arguments, and the tokenizer does not take kindly to surprising
     # "un-indents".
+    if hasattr(ast_source, "__wrapped__"):
+        # `inspect` finds the source of the undecorated function: not what this callable does.
+        raise ValueError(f"Unable to use the decorated function {ast_source} as a lambda.")
     func_name = None
     start_token = None
     source, lambda_line = _get_sourcelines(ast_source)
